@@ -3,6 +3,7 @@ package main
 // C07: Base58 / Base58Check / bech32 / ConvertBits.
 
 import (
+	"bytes"
 	"github.com/gcash/bchutil/base58"
 	"github.com/gcash/bchutil/bech32"
 	"strings"
@@ -33,7 +34,7 @@ func opB58Encode(_ *HState, a Event) Event {
 	arg, backing := sliceWithCap(gBytes(a, "b"), gInt(a, "extra"))
 	m0 := ints(backing)
 	var ret string
-	p, msg := guard(func() { ret = base58.Encode(arg) })
+	p, msg := guard(func() { ret = retainStr("Base58Encode", "ret", base58.Encode(arg)) })
 	return panicField(with(a, "ret", str(ret), "mem0", m0, "mem1", ints(backing)), p, msg)
 }
 
@@ -41,6 +42,7 @@ func opB58Decode(_ *HState, a Event) Event {
 	var ret []byte
 	s := gStr(a, "s")
 	p, msg := guard(func() { ret = base58.Decode(s) })
+	retain("Base58Decode", "ret", ret)
 	return panicField(with(a, "ret", ints(ret)), p, msg)
 }
 
@@ -50,7 +52,7 @@ func opCheckEncode(_ *HState, a Event) Event {
 	arg, backing := sliceWithCap(b, gInt(a, "extra"))
 	m0 := ints(backing)
 	var ret string
-	p, msg := guard(func() { ret = base58.CheckEncode(arg, ver) })
+	p, msg := guard(func() { ret = retainStr("CheckEncode", "ret", base58.CheckEncode(arg, ver)) })
 	return panicField(with(a, "ret", str(ret), "mem0", m0, "mem1", ints(backing),
 		"env", []interface{}{envSha256d(append([]byte{ver}, b...))}), p, msg)
 }
@@ -73,6 +75,7 @@ func opCheckDecode(_ *HState, a Event) Event {
 	var ver byte
 	var err error
 	p, msg := guard(func() { ret, ver, err = base58.CheckDecode(s) })
+	retain("CheckDecode", "ret", ret)
 	env := []interface{}{}
 	// untrusted planner: the spec decides which bytes are hashed; we offer the
 	// obvious candidate computed with an independent Base58 decoder.
@@ -133,6 +136,7 @@ func opBech32Decode(_ *HState, a Event) Event {
 	var data []byte
 	var err error
 	p, msg := guard(func() { hrp, data, err = bech32.Decode(s) })
+	retain("Bech32Decode", "data", data)
 	return panicField(with(a, "ok", err == nil && !p, "rhrp", str(hrp), "rdata", ints(data)), p, msg)
 }
 
@@ -143,6 +147,7 @@ func opConvertBits(_ *HState, a Event) Event {
 	var err error
 	p, msg := guard(func() {
 		ret, err = bech32.ConvertBits(arg, uint8(gInt(a, "from")), uint8(gInt(a, "to")), gBool(a, "pad"))
+		retain("ConvertBits", "ret", ret)
 	})
 	return panicField(with(a, "ok", err == nil && !p, "ret", ints(ret), "mem0", m0, "mem1", ints(backing)), p, msg)
 }
@@ -301,6 +306,21 @@ func runC07(c *Ctx) {
 		}
 		b58dec(c, s)
 	}
+	// every digit count 1..230 with the largest and the smallest number of that many digits (a decoder that sizes its
+	// buffer from the digit count is wrong only where the estimate is a byte short), and the same behind leading '1's
+	for L := 1; L <= c.Pick(230, 400); L++ {
+		b58dec(c, strings.Repeat("z", L))
+		b58dec(c, "2"+strings.Repeat("1", L-1))
+		if L%3 == 0 {
+			b58dec(c, "11"+strings.Repeat("z", L))
+			b58dec(c, "z"+randStr(c, b58alpha, L-1))
+		}
+	}
+	// every byte count 1..170 with the largest / smallest value (encoder side of the same estimate)
+	for n := 1; n <= 170; n++ {
+		b58enc(c, bytes.Repeat([]byte{0xff}, n), 0)
+		b58enc(c, append([]byte{1}, make([]byte, n-1)...), 0)
+	}
 	// valid multi-byte UTF-8 characters (their code point modulo 256 may be an alphabet character)
 	for k := 0; k < c.Pick(120, 1200); k++ {
 		s := randStr(c, b58alpha, 1+r.Intn(50))
@@ -344,6 +364,14 @@ func runC07(c *Ctx) {
 		chkdec(c, s+string(b58alpha[r.Intn(58)]))
 		if k%9 == 0 {
 			chkdec(c, "1"+s)
+		}
+	}
+	// forgeries confined to the four checksum bytes (bits, swaps, OR / AND / XOR with a neighbour, moved bits, ...)
+	for k := 0; k < c.Pick(3, 12); k++ {
+		body := append([]byte{byte(k * 37)}, randBytes(r, []int{20, 0, 33, 1, 32, 74}[k%6])...)
+		full := append(append([]byte{}, body...), sha256d(body)[:4]...)
+		for _, q := range checksumForgeries(full) {
+			chkdec(c, base58Ref(q))
 		}
 	}
 	// decoded lengths 0..8 with a valid checksum over the prefix (format boundary)
